@@ -5,6 +5,8 @@ package metadata
 // Contracts for the deductive checks in /verif (comment-only; no code).
 // Property C11: metadata encoding is canonical, round-trips, and is safe.
 
+//@ nonnil graphSyncFilecoinV1Prototype
+
 // protoID is Protocol.ID() of an interface value: the Code field for *Unknown,
 // a constant of the dynamic type for every other transport.
 //@ spec func typeID(tag int) int
@@ -153,6 +155,21 @@ package metadata
 //@   requires r != nil
 //@   assumes constLens()
 //@   ensures result1 == nil ==> result0 == len(ipfsGatewayHttpBytes)
+
+// Call protocol of the dag-cbor step: the decoder is handed the counting
+// reader itself (no read-ahead layer in between), so the count returned is the
+// number of bytes taken from r. The codec's own behaviour is a dependency
+// (bounded stand-in only).
+//@ func (*GraphsyncFilecoinV1).ReadFrom
+//@   property C11
+//@   requires dtm != nil && r != nil
+//@   at call ReadUvarint#1: assert typeis(arg0, "*metadata.countingReader") && payload(arg0) == cr
+//@   at call Decode#1: assert typeis(arg2, "*metadata.countingReader") && payload(arg2) == cr
+//@   at call ReadUvarint#1: after assume 0 <= cr.readCount && cr.readCount <= 10 && (result1 == nil ==> 1 <= cr.readCount)
+//@   at call Decode#1: after assume 1 <= cr.readCount
+//@   at call NewBuilder#1: after assume result != nil
+//@   at call Unwrap#1: after assume typeis(result, "*metadata.GraphsyncFilecoinV1") && payload(result) != 0
+//@   ensures-local result1 == nil ==> count("call:Decode") == 1
 
 //@ func (*countingReader).Read
 //@   property C11
